@@ -294,17 +294,31 @@ def build_cli():
 # ---------------------------------------------------------------------------
 # running cases.  A case is (id, comp, [fields]).  Results: dict id -> string
 
-def _run_proc(exe, lines, timeout, env=None):
-    """feed lines; returns (dict id->result, status) status in ok|timeout|crash:<rc>"""
+def _limit_mem(nbytes):
+    def f():
+        import resource
+        resource.setrlimit(resource.RLIMIT_AS, (nbytes, nbytes))
+    return f
+
+
+def _run_proc(exe, lines, timeout, env=None, mem=None):
+    """feed lines; returns (dict id->result, status) status in ok|timeout|crash:<rc>:<last stderr line>"""
     data = ''.join(l + '\n' for l in lines)
     e = dict(os.environ)
     if env:
         e.update(env)
     try:
         p = subprocess.run([exe], input=data.encode(), stdout=subprocess.PIPE, stderr=subprocess.PIPE,
-                           timeout=timeout, env=e)
+                           timeout=timeout, env=e, preexec_fn=_limit_mem(mem) if mem else None)
         out, rc = p.stdout, p.returncode
-        status = 'ok' if rc == 0 else 'crash:%d' % rc
+        if rc == 0:
+            status = 'ok'
+        else:
+            tail = [x for x in p.stderr.decode('utf-8', 'replace').split('\n') if x.strip()]
+            key = [x for x in tail if ('memory allocation' in x or 'overflowed its stack' in x or 'panicked at' in x
+                                       or 'capacity overflow' in x)]
+            msg = key[0] if key else (tail[0] if tail else '')
+            status = 'crash:%d:%s' % (rc, msg[:200].replace('\t', ' '))
     except subprocess.TimeoutExpired as ex:
         out = ex.stdout or b''
         status = 'timeout'
@@ -317,15 +331,15 @@ def _run_proc(exe, lines, timeout, env=None):
     return res, status
 
 
-def run_lines(exe, lines, timeout=120, env=None):
+def run_lines(exe, lines, timeout=120, env=None, mem=None):
     """robust run: when the process crashes or hangs, the first unanswered case is
-    blamed (CRASH / TIMEOUT) and the rest are re-run."""
+    blamed (`CRASH <rc> <last stderr line>` / `TIMEOUT`) and the rest are re-run."""
     results = {}
     pending = list(lines)
     guard = 0
-    while pending and guard < 50:
+    while pending and guard < 200:
         guard += 1
-        res, status = _run_proc(exe, pending, timeout, env)
+        res, status = _run_proc(exe, pending, timeout, env, mem)
         results.update(res)
         if status == 'ok':
             for l in pending:
@@ -343,19 +357,19 @@ def run_lines(exe, lines, timeout=120, env=None):
         if idx is None:
             break
         k = pending[idx].split('\t', 1)[0]
-        results[k] = 'TIMEOUT' if status == 'timeout' else 'CRASH\t' + status.split(':', 1)[1]
+        results[k] = 'TIMEOUT' if status == 'timeout' else 'CRASH\t' + '\t'.join(status.split(':', 2)[1:])
         pending = pending[idx + 1:]
     return results
 
 
-def run_sharded(exe, lines, timeout=120, shards=NCPU, env=None):
+def run_sharded(exe, lines, timeout=120, shards=NCPU, env=None, mem=None):
     if not lines:
         return {}
     shards = max(1, min(shards, len(lines)))
     parts = [lines[i::shards] for i in range(shards)]
     out = {}
     with ThreadPoolExecutor(max_workers=shards) as ex:
-        for r in ex.map(lambda p: run_lines(exe, p, timeout, env), parts):
+        for r in ex.map(lambda p: run_lines(exe, p, timeout, env, mem), parts):
             out.update(r)
     return out
 
